@@ -212,7 +212,7 @@ func cmdCheck(args []string) int {
 				isU = true
 			}
 		}
-		if isU {
+		if isU || ob.Cover {
 			otherObs = append(otherObs, ob)
 		} else {
 			claimedObs = append(claimedObs, ob)
@@ -306,6 +306,7 @@ func cmdCheck(args []string) int {
 	claimed, discharged, violations := 0, 0, 0
 	var undecided []map[string]any
 	var knownLines []string
+	var coverNotRefuted []string
 	var samples []map[string]any
 	replayDir := filepath.Join(*verif, "replays", *prop)
 	_ = os.MkdirAll(replayDir, 0o755)
@@ -331,12 +332,21 @@ func cmdCheck(args []string) int {
 			continue
 		}
 		if a.cover {
-			if len(a.bad) > 0 {
-				r := res[a.bad[0]]
-				if r.Status == "unsat" {
-					return engineErr("vacuity: %s is unsatisfiable (contradictory precondition)", n)
+			// vacuity guard: a contradictory precondition is an engine/contract error. A solver
+			// that neither finds a model nor a contradiction (quantified preconditions) leaves the
+			// guard "not refuted": recorded, not counted as an obligation.
+			refuted := false
+			for _, b := range a.bad {
+				if res[b].Status == "unsat" {
+					refuted = true
 				}
-				return engineErr("vacuity: cover %s undecided (%s)", n, r.Status)
+			}
+			if refuted {
+				return engineErr("vacuity: %s is unsatisfiable (contradictory precondition)", n)
+			}
+			if len(a.bad) > 0 {
+				coverNotRefuted = append(coverNotRefuted, n)
+				continue
 			}
 			claimed++
 			discharged++
@@ -430,6 +440,7 @@ func cmdCheck(args []string) int {
 			"solve_wall_seconds": round3(solveS),
 			"generated_not_claimed": undecided,
 			"known_findings":  knownLines,
+			"vacuity_guards_not_refuted_but_no_model_found": coverNotRefuted,
 			"decided_clauses": plan.Decided,
 			"not_decided":     plan.NotDecided,
 			"assumption_scan": scanAssumptions(c),
